@@ -544,10 +544,21 @@ func (cp *ClientPromise) Fulfill(c *Client) {
 		cp.h.mu.Unlock()
 		panic("ClientPromise.Resolve called more than once")
 	}
-	cp.h.resolvedHook = rh
-	close(cp.h.resolved)
 	refs := cp.h.refs
 	cp.h.refs = 0
+	if refs > 0 && rh != nil {
+		// Move the references to the hook that clients will reach through
+		// the resolution before the resolution becomes visible.  cp.h.mu
+		// stays held, so no client can resolve through cp.h and touch the
+		// target's count (e.g. Release) before its reference has arrived.
+		rh.mu.Lock()
+		if th := resolveHook(rh); th != nil {
+			th.refs += refs
+			th.mu.Unlock()
+		}
+	}
+	cp.h.resolvedHook = rh
+	close(cp.h.resolved)
 	if refs == 0 {
 		cp.h.mu.Unlock()
 		return
@@ -557,11 +568,7 @@ func (cp *ClientPromise) Fulfill(c *Client) {
 	if cp.h.calls == 0 {
 		close(cp.h.done)
 	}
-	rh = resolveHook(cp.h) // swaps mutex on cp.h for mutex on rh
-	if rh != nil {
-		rh.refs += refs
-		rh.mu.Unlock()
-	}
+	cp.h.mu.Unlock()
 	verifYield("ClientPromise.Fulfill:wait-done")
 	<-cp.h.done
 	cp.h.Shutdown()
